@@ -121,7 +121,7 @@ def census():
 
 # per-kind floors (fraction of the tier size) and directed-case floors: a runner that silently stops
 # emitting a kind, or a generator that stops reaching a class of inputs, is a broken correspondence
-KIND_FLOOR = {"R": 0.40, "T": 0.30, "D": 0.06, "N": 0.03, "V": 0.012, "Q": 0.006}
+KIND_FLOOR = {"R": 0.40, "T": 0.30, "D": 0.035, "E": 0.02, "N": 0.03, "V": 0.012, "Q": 0.006}
 MAPPED = "00000000000000000000ffff"
 
 
@@ -154,10 +154,26 @@ def floors(lines, verdicts):
     for name, floor, pred in checks:
         if pred is not None and count(pred) < floor:
             bad.append(f"floor not reached: {name}: {count(pred)} < {floor}")
+    # the typed model (Model/CqlTyped.v) must really have been compared on most T cases and on the E cases
+    nT = kinds.get("T", 0)
+    tm = sum(1 for ln, v in zip(lines, verdicts) if ln.startswith("T ") and v and v.startswith("ok tm"))
+    if tm < 0.6 * nT:
+        bad.append(f"typed model compared on only {tm} of {nT} T cases")
+    e_cmp = sum(1 for ln, v in zip(lines, verdicts) if ln.startswith("E ") and v == "ok")
+    if e_cmp < 0.8 * kinds.get("E", 0):
+        bad.append(f"typed decoders compared on only {e_cmp} of {kinds.get('E', 0)} E cases")
+    e_null = count(lambda l: l.startswith("E ") and " ffffffff |" in l)
+    e_err = count(lambda l: l.startswith("E ") and "| err:" in l and "err:TypeCheck" not in l)
+    if e_null < 100 or e_err < 300:
+        bad.append(f"typed decoders: {e_null} null-cell cases (< 100) or {e_err} decode errors (< 300)")
     carriers = {ln.split(" ")[1] for ln in lines if ln.startswith("T ")}
-    if len(carriers) < 120:
-        bad.append(f"only {len(carriers)} typed carriers exercised (< 120)")
-    for needed in ("RefStr", "CowStr", "BoxStr", "ArcStr", "RefSlice", "VarintB", "DecimalB", "IpAddr", "Option<IpAddr>"):
+    if len(carriers) < 135:
+        bad.append(f"only {len(carriers)} typed carriers exercised (< 135)")
+    arities = {c.count(",") + 1 for c in carriers if c.startswith("(") and not c.endswith(",)")} | ({1} if any(c.endswith(",)") for c in carriers) else set())
+    if not set(range(1, 17)) <= arities:
+        bad.append(f"tuple arities exercised: {sorted(arities)} (want 1..16)")
+    for needed in ("RefStr", "CowStr", "BoxStr", "ArcStr", "RefSlice", "VarintB", "DecimalB", "IpAddr", "Option<IpAddr>",
+                   "secrecy_10::SecretString", "secrecy_10::SecretSlice<i32>"):
         if needed not in carriers:
             bad.append(f"carrier {needed} not exercised")
     return bad
@@ -183,6 +199,8 @@ def _depth(s):
 def extra_coverage(lines, verdicts):
     cov = {"type_depth_histogram": {}, "carriers": 0, "ser_ok": 0, "ser_err": 0, "deser_err": 0,
            "outside_quantifier_accepted_not_read_back": sum(1 for v in verdicts if v and v.startswith("ok obs=")),
+           "typed_model_compared_T": sum(1 for ln, v in zip(lines, verdicts) if ln.startswith("T ") and v and v.startswith("ok tm")),
+           "typed_decoder_E_compared": sum(1 for ln, v in zip(lines, verdicts) if ln.startswith("E ") and v == "ok"),
            "ipv4_mapped_inet_cases": sum(1 for ln in lines if "inet:" + MAPPED in ln),
            "known_class_hits": {}, "census": "in step" if not census() else "MISMATCH"}
     carriers = set()
